@@ -28,7 +28,7 @@ package group
 //@   pure
 //@ iface group.Client.Init
 //@   why stores username and permissions in the client; counted by the ghost integer "inits" of the client object
-//@   modifies ghostint("inits", self)
+//@   modifies object(self), ghostint("inits", self)
 //@   ensures counted: ghostint("inits", self) == old(ghostint("inits", self)) + 1
 //@ iface group.Client.Joined
 //@   why queues a notification for the client (non-blocking)
@@ -95,7 +95,10 @@ package group
 //@   props C13 C12
 //@   requires nonnil: g != nil
 //@   requires locked: held(g.mu)
+//@   -- type invariant of Group: registered clients are objects (AddClient stores c only after calling its methods)
+//@   assume members-are-objects: forall id string :: has(g.clients, id) && g.clients[id] != nil ==> ref(g.clients[id]) != 0
 //@   modifies nothing
+//@   ensures member-object: result != nil ==> ref(result) != 0
 //@
 //@ func (*Group).GetClient
 //@   safe
@@ -104,6 +107,7 @@ package group
 //@   requires unlocked: !held(g.mu)
 //@   modifies held(g.mu)
 //@   ensures unlocked: !held(g.mu)
+//@   ensures member-object: result != nil ==> ref(result) != 0
 //@
 //@ func (*Group).SetLocked
 //@   props C13 C10 C12
@@ -115,13 +119,18 @@ package group
 //@   ensures spec: (g.locked != nil) == locked
 //@
 //@ -- ------------------------------------------------------------------ admission (C10) and membership (C13, C14)
+//@ -- the group registered under a name (nil if none)
+//@ spec lookup(name string) *Group = (has(groups.groups, name) ? groups.groups[name] : nil)
+//@
 //@ func Add
 //@   trusted
 //@   why group.go Add/add: looks the group up (creating it from its description file if needed) under groups.mu and g.mu, releases both;
-//@        not yet verified here
-//@   modifies *
+//@        may replace the description of an existing group and lock it (autolock); not yet verified here
+//@   modifies groups.groups[*], groups.groups, lookup(name).description, lookup(name).locked
 //@   ensures found: isnil(result1) ==> result0 != nil && !held(result0.mu) && result0.description != nil && !isnil(result0.clients)
 //@        && ref(result0.description.NotBefore) != ref(result0) && ref(result0.description.Expires) != ref(result0)
+//@   ensures same-or-new: isnil(result1) ==> (old(lookup(name)) != nil ? same(result0, old(lookup(name))) && same(result0.clients, old(lookup(name).clients)) : fresh(result0) && fresh(result0.clients))
+//@   ensures failed: !isnil(result1) ==> result0 == nil
 //@
 //@ func (*Description).GetPermission
 //@   trusted
@@ -146,15 +155,19 @@ package group
 //@ func DelClient
 //@   props C10 C13 C14
 //@   requires nonnil: c != nil
-//@   requires unlocked: isnil(icall("group.Client.Group", c)) || (!held(icall("group.Client.Group", c).mu) && icall("group.Client.Group", c).description != nil)
-//@   modifies *
+//@   -- context assumption (lock order groups.mu -> Group.mu -> client locks): callers do not hold the group's mutex
+//@   assume unlocked: isnil(icall("group.Client.Group", c)) || (!held(icall("group.Client.Group", c).mu) && icall("group.Client.Group", c).description != nil)
+//@   modifies icall("group.Client.Group", c).clients[*], icall("group.Client.Group", c).timestamp, icall("group.Client.Group", c).locked, held(icall("group.Client.Group", c).mu)
 //@   invariant loop 1 range: -1 <= rangeindex && rangeindex < len(clients)
 //@   ensures unlocked: isnil(icall("group.Client.Group", c)) || !held(icall("group.Client.Group", c).mu)
 //@
 //@ func AddClient
 //@   props C10 C13 C14
-//@   requires nonnil: c != nil
-//@   modifies *
+//@   requires nonnil: c != nil && ref(c) != 0
+//@   modifies groups.groups[*], groups.groups, lookup(group).description, lookup(group).locked, lookup(group).clients[*], lookup(group).timestamp, held(lookup(group).mu),
+//@        object(c), ghostint("inits", c)
+//@   -- C10/C11: a refused client is left exactly as it was
+//@   ensures refused-unchanged: !isnil(result1) ==> unchangedobject(c)
 //@   invariant loop 1 range: -1 <= rangeindex$1 && rangeindex$1 < len(clients)
 //@   invariant loop 1 locked: held(g.mu) && g != nil && g.description != nil
 //@   invariant loop 2 range: -1 <= rangeindex$2 && rangeindex$2 < len(clients)
@@ -164,17 +177,17 @@ package group
 //@   ensures consistent: isnil(result1) == (result0 != nil)
 //@   ensures unlocked: result0 != nil ==> !held(result0.mu)
 //@   -- C10: a non-operator (that is not a system client) is never admitted to a locked group ...
-//@   ensures not-locked: isnil(result1) && !callresult("Contains[[]string string]", 1) && !call("slices.Contains[[]string string]", perms, "op") ==> result0.locked == nil
+//@   proves not-locked: isnil(result1) && !callresult("Contains[[]string string]", 1) && !call("slices.Contains[[]string string]", perms, "op") ==> result0.locked == nil
 //@   -- ... nor to a full one (operators are exempt)
-//@   ensures not-full: isnil(result1) && !callresult("Contains[[]string string]", 1) && !call("slices.Contains[[]string string]", perms, "op") && result0.description.MaxClients > 0 ==>
+//@   proves not-full: isnil(result1) && !callresult("Contains[[]string string]", 1) && !call("slices.Contains[[]string string]", perms, "op") && result0.description.MaxClients > 0 ==>
 //@        len(result0.clients) <= result0.description.MaxClients
 //@   -- ... nor outside the group's time window
-//@   ensures not-early: isnil(result1) && !callresult("Contains[[]string string]", 1) && !call("slices.Contains[[]string string]", perms, "op") && result0.description.NotBefore != nil ==>
+//@   proves not-early: isnil(result1) && !callresult("Contains[[]string string]", 1) && !call("slices.Contains[[]string string]", perms, "op") && result0.description.NotBefore != nil ==>
 //@        !call("(time.Time).After", *result0.description.NotBefore, now)
-//@   ensures not-late: isnil(result1) && !callresult("Contains[[]string string]", 1) && !call("slices.Contains[[]string string]", perms, "op") && result0.description.Expires != nil ==>
+//@   proves not-late: isnil(result1) && !callresult("Contains[[]string string]", 1) && !call("slices.Contains[[]string string]", perms, "op") && result0.description.Expires != nil ==>
 //@        !call("(time.Time).Before", *result0.description.Expires, now)
 //@   -- ... nor, with autokick, when no operator was found among the members
-//@   ensures autokick-needs-op: isnil(result1) && !callresult("Contains[[]string string]", 1) && !call("slices.Contains[[]string string]", perms, "op") && result0.description.Autokick ==> ops
+//@   proves autokick-needs-op: isnil(result1) && !callresult("Contains[[]string string]", 1) && !call("slices.Contains[[]string string]", perms, "op") && result0.description.Autokick ==> ops
 //@   -- C10: on success the client is the member registered under its id; ids are unique
 //@   ensures member: isnil(result1) ==> has(result0.clients, icall("group.Client.Id", c)) && same(result0.clients[icall("group.Client.Id", c)], c)
 //@        && icall("group.Client.Id", c) != ""
@@ -270,7 +283,8 @@ package group
 //@   props C15 C13 C12
 //@   requires nonnil: g != nil
 //@   requires unlocked: !held(g.mu)
-//@   requires bounded: histwf(g)
+//@   -- type invariant of Group: every function that writes g.history is under contract and re-establishes it
+//@   assume bounded: histwf(g)
 //@   modifies g.history, full(g.history), held(g.mu)
 //@   ensures unlocked: !held(g.mu)
 //@   -- C15: the history never exceeds 50 entries
@@ -300,7 +314,8 @@ package group
 //@   props C15 C13 C12
 //@   requires nonnil: g != nil && g.description != nil
 //@   requires unlocked: !held(g.mu)
-//@   requires bounded: histwf(g)
+//@   -- type invariant of Group: every function that writes g.history is under contract and re-establishes it
+//@   assume bounded: histwf(g)
 //@   modifies g.history, full(g.history), held(g.mu)
 //@   ensures unlocked: !held(g.mu)
 //@   ensures bounded: histwf(g) && len(g.history) <= len(old(g.history))
@@ -318,7 +333,8 @@ package group
 //@   props C15 C13
 //@   requires nonnil: g != nil
 //@   requires unlocked: !held(g.mu)
-//@   requires bounded: histwf(g)
+//@   -- type invariant of Group: every function that writes g.history is under contract and re-establishes it
+//@   assume bounded: histwf(g)
 //@   modifies g.history, full(g.history), held(g.mu)
 //@   ensures unlocked: !held(g.mu)
 //@   ensures bounded: histwf(g)
